@@ -276,6 +276,8 @@ def check_scenarios(impl_by_tag):
         st = tr.stats[max(tr.stats)] if tr.stats else None
         if st and st[0]:
             f.append("collector retains %s after all traces finished" % (st[0],))
+        if tr.stats and tr.parked.get(max(tr.stats), 0):
+            f.append("collector keeps %d parked-cancel note(s) after all traces finished" % tr.parked[max(tr.stats)])
         for x in f:
             fails.append((tag, x))
     return fails
